@@ -351,7 +351,9 @@ func RunRandomTriples(c *core.Ctx) {
 	}
 	coll := age.Collator[any]().Make()
 	cs := map[string]any{"a": na.String(), "b": nb.String(), "c": nc.String()}
-	fail := func(sig, format string, a ...any) { c.Violation("rank/"+sig+"/generated", fmt.Sprintf(format, a...), cs) }
+	fail := func(sig, format string, a ...any) {
+		c.Violation("rank/"+sig+"/generated", fmt.Sprintf(format, a...), cs)
+	}
 	var m [3][3]pairResult
 	for i := 0; i < 3; i++ {
 		for j := 0; j < 3; j++ {
@@ -437,7 +439,9 @@ func RunCopiesAndMutations(c *core.Ctx) {
 	cp := n.Build(r)
 	coll := age.Collator[any]().Make()
 	cs := map[string]any{"value": n.String()}
-	fail := func(sig, format string, a ...any) { c.Violation("compare/"+sig+"/generated", fmt.Sprintf(format, a...), cs) }
+	fail := func(sig, format string, a ...any) {
+		c.Violation("compare/"+sig+"/generated", fmt.Sprintf(format, a...), cs)
+	}
 	x := evalAny(coll, v, cp)
 	if x.cerr != "" || x.rerr != "" {
 		fail("panicked", "comparing a value with its rebuilt copy panicked: %s %s", x.cerr, x.rerr)
